@@ -187,7 +187,14 @@ class QGlobalAveragePooling2D(GlobalAveragePooling2D):
         x = K.sum(inputs, axis=[2, 3], keepdims=self.keepdims)
 
       # Calculates the pooling area
-      pool_area = self.compute_pooling_area(input_shape=inputs.shape)
+      h_axis, w_axis = (1, 2) if self.data_format == "channels_last" else (2, 3)
+      if inputs.shape[h_axis] is None or inputs.shape[w_axis] is None:
+        # Spatial dims are unknown until run time (e.g. Input((None, None, C))).
+        dynamic_shape = tf.shape(inputs)
+        pool_area = tf.cast(
+            dynamic_shape[h_axis] * dynamic_shape[w_axis], K.floatx())
+      else:
+        pool_area = self.compute_pooling_area(input_shape=inputs.shape)
 
       # Quantizes the inverse multiplication factor
       mult_factor = 1.0 / pool_area
